@@ -1250,13 +1250,18 @@ func (s *sharedEntryAttributes) validateMandatory(ctx context.Context, resultCha
 
 func (s *sharedEntryAttributes) validateMandatoryWithKeys(ctx context.Context, level int, attribute string, resultChan chan<- *types.ValidationResultEntry) {
 	if level == 0 {
+		// a list entry that goes away as a whole needs no mandatory childs
+		if !s.remainsToExist() {
+			return
+		}
 		// first check if the mandatory value is set via the intent, e.g. part of the tree already
 		v, existsInTree := s.filterActiveChoiceCaseChilds()[attribute]
 
 		// if not the path exists in the tree and is not to be deleted, then lookup in the paths index of the store
 		// and see if such path exists, if not raise the error
 		if !(existsInTree && v.remainsToExist()) {
-			exists, err := s.treeContext.cacheClient.IntendedPathExists(ctx, append(s.Path(), attribute))
+			// the stored entries of the intents of this transaction do not count, their old and new content is in the tree
+			exists, err := s.treeContext.cacheClient.IntendedPathExists(ctx, append(s.Path(), attribute), CacheUpdateFilterExcludeOwners(s.treeContext.GetOwners()))
 			owner := "unknown"
 			if s.leafVariants.Length() > 0 {
 				s.leafVariants.GetHighestPrecedence(false, true).Owner()
